@@ -62,4 +62,18 @@ mod verif_c04_reverse_turn_wit {
         if ids.first() == Some(&1) || ids.first() == Some(&3) { ids.reverse(); }
         assert!(!ids.windows(2).any(|w| w[0] == 0 && w[1] == 1), "the reverse search's route {:?} (travel order) takes the restricted turn from edge 0 onto edge 1", ids);
     }
+    /// edge-oriented queries: the turn from the ORIGIN EDGE onto the next edge of the route is a turn of the route like any other
+    #[test]
+    fn c04_wit_edge_oriented_route_avoids_the_restricted_turn_after_the_origin_edge() {
+        use routee_compass_core::algorithm::search::search_algorithm::SearchAlgorithm;
+        let si = instance(turn_model());
+        let q = serde_json::json!({});
+        // origin edge 0 (0 -> 1), destination edge 1 (1 -> 3): the only route is the restricted turn itself -> no route may be returned
+        if let Ok(r) = SearchAlgorithm::Dijkstra.run_edge_oriented(EdgeId(0), Some(EdgeId(1)), &q, &Direction::Forward, &si) {
+            for route in r.routes.iter() {
+                let ids: Vec<usize> = route.iter().map(|e| e.edge_id.0).collect();
+                assert!(!ids.windows(2).any(|w| w[0] == 0 && w[1] == 1), "the edge-oriented route {:?} takes the restricted turn from edge 0 onto edge 1", ids);
+            }
+        }
+    }
 }
